@@ -1257,6 +1257,101 @@ def gen_lints(repo):
     if not ("letscoped_identifier=get_scoped_identifier(identifier,&parser.current_scope.parser_scope);" in gsrc
             and "CommentParser::new(parser.file_name,&scoped_identifier,parser.diagnostics)" in gsrc):
         raise ExtractionError(T, "slicec/src/parsers/slice/grammar.rs", "parse_doc_comment does not hand the element's scoped identifier to the comment parser")
+    # ---- the parser scope in which type references are written (grammar.lalrpop) ----------------------
+    # `Deprecated` records `type_ref.parser_scope()`; a `TypeRef` copies `parser.current_scope`, which `ContainerIdentifier`
+    # extends by the identifier it reads and `ContainerEnd` restores. So the scope of a written type reference is a fact of
+    # the grammar: is the reference between the `ContainerIdentifier` and the `ContainerEnd` of its own production or not.
+    relg = "slicec/src/parsers/slice/grammar.lalrpop"
+    gram = read(repo, relg, T)
+    relr = "slicec/src/parsers/slice/grammar.rs"
+    ctr = re.sub(r"\s+", "", fn_body(read(repo, relr, T), "construct_type_ref", T, relr))
+    if "scope:parser.current_scope.clone()," not in ctr:
+        raise ExtractionError(T, relr, "construct_type_ref does not store `parser.current_scope.clone()` as the reference's scope")
+    relu = "slicec/src/grammar/util.rs"
+    usrc = read(repo, relu, T)
+    push = re.sub(r"\s+", "", fn_body(usrc, "push_scope", T, relu))
+    if push != 'if!self.parser_scope.is_empty(){self.parser_scope.push_str("::");}self.parser_scope.push_str(scope);':
+        raise ExtractionError(T, relu, "Scope::push_scope is not `parser_scope += \"::\" (unless empty) + scope`")
+    pop = re.sub(r"\s+", "", fn_body(usrc, "pop_scope", T, relu))
+    if not ('ifletSome(last_scope_index)=self.parser_scope.rfind("::"){' in pop and "self.parser_scope.truncate(last_scope_index);" in pop
+            and pop.endswith("self.parser_scope.clear();}")):
+        raise ExtractionError(T, relu, "Scope::pop_scope does not remove the last `::segment`")
+
+    def production(name):
+        mh = re.search(r"^(?:pub\s+)?" + name + r"\s*(?::[^=;{]*?)?=\s*\{", gram, re.M)
+        if not mh:
+            raise ExtractionError(T, relg, f"production {name} not found")
+        blk = block_after(gram, mh.end() - 1)
+        if blk is None:
+            raise ExtractionError(T, relg, f"production {name}: unbalanced block")
+        return blk
+
+    ci = re.sub(r"\s+", "", production("ContainerIdentifier"))
+    if ci != "Identifier=>{parser.current_scope.push_scope(&<>.value);<>},":
+        raise ExtractionError(T, relg, "ContainerIdentifier is not `Identifier => { parser.current_scope.push_scope(&<>.value); <> }`")
+    ce = re.sub(r"\s+", "", production("ContainerEnd"))
+    if ce != "=>parser.current_scope.pop_scope(),":
+        raise ExtractionError(T, relg, "ContainerEnd is not `=> parser.current_scope.pop_scope()`")
+
+    def flat_symbols(text):
+        """terminals and nonterminals of an alternative in source order; bindings, locations and repetition marks dropped"""
+        t = re.sub(r"<\s*(?:mut\s+)?[a-z_]\w*\s*:", "<", text)
+        t = re.sub(r"@[LR]\b", " ", t)
+        toks = re.findall(r'"[^"]*"|[A-Za-z_]\w*', t)
+        left = re.sub(r'"[^"]*"|[A-Za-z_]\w*|[<>()*?+\s]', "", t)
+        if left:
+            raise ExtractionError(T, relg, f"symbols `{' '.join(text.split())}` not understood")
+        return toks
+
+    prod_names = re.findall(r"^(?:pub\s+)?([A-Z]\w*)\s*(?:<[^>]*>)?\s*(?::[^=;{]*?)?=\s*\{", gram, re.M)
+    typeref_rows, scoped_rows = [], []
+    for name in prod_names:
+        if name in ("ContainerIdentifier", "ContainerEnd") or not re.fullmatch(r"[A-Z]\w*", name):
+            continue
+        try:
+            blk = production(name)
+        except ExtractionError:
+            continue        # macro productions `Name<T>` never mention TypeRef directly (checked below)
+        for ai, (syms, _action) in enumerate(_split_alternatives(blk, T, relg, name)):
+            toks = flat_symbols(syms)
+            n_ci, n_ce = toks.count("ContainerIdentifier"), toks.count("ContainerEnd")
+            if n_ci == 0 and n_ce == 0:
+                cls = "enclosing"
+            elif n_ci == 1 and n_ce == 1 and toks[-1] == "ContainerEnd":
+                cls = "own"
+                a = toks.index("ContainerIdentifier")
+                inner = []
+                for k in toks[a + 1:-1]:
+                    if re.fullmatch(r"[A-Z]\w*", k) and k not in inner:
+                        inner.append(k)
+                scoped_rows.append((name, inner))
+            else:
+                raise ExtractionError(T, relg, f"{name}: ContainerIdentifier / ContainerEnd are not paired around the end of the production")
+            for k, tok in enumerate(toks):
+                if tok != "TypeRef":
+                    continue
+                if cls == "own" and k < toks.index("ContainerIdentifier"):
+                    raise ExtractionError(T, relg, f"{name}: a TypeRef is written before the ContainerIdentifier")
+                typeref_rows.append((name, str(ai), cls))
+    for mm in re.finditer(r"^([A-Z]\w*)<[^>]*>\s*(?::[^=;{]*?)?=\s*\{", gram, re.M):
+        blk = block_after(gram, mm.end() - 1) or ""
+        if re.search(r"\b(TypeRef|ContainerIdentifier|ContainerEnd)\b", blk):
+            raise ExtractionError(T, relg, f"macro production {mm.group(1)} mentions TypeRef / ContainerIdentifier / ContainerEnd")
+    typeref_rows = sorted(set(typeref_rows))
+    member_cls = {}
+    for name in ("Field", "Parameter", "TypeAlias"):
+        cl = sorted(set(c for n, _, c in typeref_rows if n == name))
+        if len(cl) != 1:
+            raise ExtractionError(T, relg, f"{name}: expected exactly one kind of TypeRef position, found {cl}")
+        member_cls[name] = cl[0]
+    if all(c == "own" for c in member_cls.values()):
+        member_scope = True
+    elif all(c == "enclosing" for c in member_cls.values()):
+        member_scope = False
+    else:
+        raise ExtractionError(T, relg, "Field / Parameter / TypeAlias do not agree on the scope their type is parsed in: "
+                              + ", ".join(f"{k}={v}" for k, v in sorted(member_cls.items())))
+
     for k, _, _ in sites:
         if k not in kinds:
             raise ExtractionError(T, rel, f"lint kind {k} is created but not declared")
@@ -1311,7 +1406,7 @@ def gen_lints(repo):
         return "[" + ", ".join(xs) + "]"
 
     text = f"""-- GENERATED by translator/extract.py from slicec/src/diagnostics/{{lints,mod,diagnostic}}.rs, grammar/attributes/allow.rs,
--- grammar/traits.rs, grammar/elements/*.rs and every `set_scope` call site — do not edit.
+-- grammar/traits.rs, grammar/elements/*.rs, every `set_scope` call site and parsers/slice/grammar.lalrpop — do not edit.
 namespace Slicec.Gen
 
 /-- lint kinds in the order of `implement_diagnostic_functions!(Lint, …)`; `Lint::code()` = `stringify!(kind)` -/
@@ -1326,6 +1421,14 @@ def allowAllIdentifier : String := {q(all_kw)}
 def allowCompareIgnoresCase : Bool := {"true" if ignore_case else "false"}
 /-- (lint kind, file, argument of `.set_scope(…)`; `-` = neither scope nor span, `-span` = span but no scope) per creation site -/
 def lintScopeSites : List (String × String × String) := {lst(f"({q(a)}, {q(b)}, {q(c)})" for a, b, c in sites)}
+/-- the type of a field / parameter / return-tuple member / type alias is written between the member's own
+    `ContainerIdentifier` and `ContainerEnd` (true: its parser scope is the member itself) or in the enclosing scope (false) -/
+def memberTypesParsedInMemberScope : Bool := {"true" if member_scope else "false"}
+/-- (production, alternative, position) of every `TypeRef` symbol of grammar.lalrpop: `own` = between the production's
+    own `ContainerIdentifier` and `ContainerEnd`, `enclosing` = the production has neither -/
+def typeRefParseScopes : List (String × String × String) := {lst(f"({q(a)}, {q(b)}, {q(c)})" for a, b, c in typeref_rows)}
+/-- productions that open a parser scope, with the nonterminals written inside it -/
+def scopedProductions : List (String × List String) := {lst(f"({q(a)}, {lst(q(x) for x in b)})" for a, b in scoped_rows)}
 /-- arguments `Allow::parse_from` rejects although they are allowable identifiers -/
 def allowAttrRejected : List String := {lst(q(k) for k in rejected)}
 /-- `Attributables` variants on which `Allow::validate_on` reports an error -/
@@ -1337,7 +1440,8 @@ def attributeOwnOnly : List String := {lst(q(k) for k in sorted(plain))}
 
 end Slicec.Gen
 """
-    return text, len(kinds) + len(allowable) + len(rows) + len(sites) + len(rejected) + len(bad_targets) + len(cont_rows) + len(plain) + 2
+    return text, len(kinds) + len(allowable) + len(rows) + len(sites) + len(rejected) + len(bad_targets) + len(cont_rows) + len(plain) + 2 \
+        + 1 + len(typeref_rows) + len(scoped_rows)
 
 
 def gen_comment_keywords(repo):
